@@ -36,7 +36,7 @@ check(s) in the third column; the one exception is an equivalent mutant (explain
 
 ### 7.2 Seeded changes written by independent sub-agents (`seeded/<id>-<n>/`)
 
-In seven rounds, fresh sub-agents were given only the text of a property and a scratch git worktree of /repo under /tmp
+In eight rounds, fresh sub-agents were given only the text of a property and a scratch git worktree of /repo under /tmp
 (nothing from /verif) and asked for two changes per property that break it, keep the 413 existing tests green and need
 something specific to manifest, each with a demonstration program. Round 1 (-1, -2: one agent per property) and round 2
 (-3, -4: also told to prefer cooperating sites and less obvious places) covered all 19 properties; round 3 (-5, -6: ten
@@ -49,12 +49,15 @@ ERROR-HANDLING REFACTOR (reordered validation, changed except clauses, moved rol
 only for a particular input class, on a later use of an object, or after a particular earlier call; round 7 (-11,
 -12: all 19 properties) asked for one REPRESENTATION change (bytes / bytearray / memoryview, int / IntEnum / bool, None /
 empty, Unicode normalisation / case / width, falsy-but-present values) and one BOUNDARY change (an off-by-one or wrong
-comparison that is wrong at ONE exact size / count / position / value, preferably not a power of two). Every change was confirmed here before it was kept
+comparison that is wrong at ONE exact size / count / position / value, preferably not a power of two); round 8 (-13,
+-14: all 19 properties) asked for one ORDER / MULTIPLICITY change (lists, de-duplication, first-wins / last-wins, loops
+that treat the first or last element specially) and one ERROR-PATH change (what a failure carries, consumes or leaves
+behind, whether a later correct call still works). Every change was confirmed here before it was kept
 (`tools/seedcheck.sh`: suite with the change: 413 passed; demo without the change: exit 0; demo with the change: exit 1)
 and then the quick tier of the property's check was run against the changed tree. {n} changes were kept. {n - missed_first - outside}
 were caught by the first version of the checks; {missed_first} were missed at first and led to the strengthenings described in
-the note column (all are caught now); {outside} is archived although it is NOT caught: it was judged to lie outside the
-property as stated (its note says why), and `tools/seedrun.py` expects the check to stay quiet on it.
+the note column (all are caught now); {outside} are archived although they are NOT caught: they were judged to lie outside
+the property as stated (their notes say why), and `tools/seedrun.py` expects the checks to stay quiet on them.
 
 {NL.join(srows)}
 
